@@ -8,7 +8,7 @@ EXPLANATION = ('Owning element types (non-trivial movable token, std::unique_ptr
 ASSUMPTIONS = ['quick: vyukov_bounded_queue<Tok>, michael_scott_queue<unique_ptr> with lock_free_ref_count; thorough adds nikolaev_bounded_queue<unique_ptr>',
                'ramalhete_queue (finding F4: ~node double delete when two producers overshoot a full node) and nikolaev_queue produce formulas beyond the solver budget and are only attempted in the thorough tier; F4 is documented in DESIGN.md, not decided here',
                'spin/retry loops beyond U iterations are outside the bound']
-TIMEOUT = {'quick': 400, 'thorough': 3000}
+TIMEOUT = {'quick': 900, 'thorough': 3000}
 SRC = 'Q/own_mt.cpp'
 
 
